@@ -105,4 +105,24 @@ Fixpoint ops_ok (pending : nat) (ops : list op) : bool :=
   | AppendEpoch _ :: r => ops_ok (S pending) r
   | SampleNext :: r => match pending with O => false | S p => ops_ok p r end
   | SampleAll :: r => ops_ok 0 r
+  | TryAppend _ :: _ => false      (* guarded appends are resolved by [normalize] first *)
+  end.
+
+(* guarded appends (TryAppend) resolved against the last config of the manager: a rejected one
+   disappears, an accepted one is an ordinary append.  [prev] = last config appended so far. *)
+Fixpoint normalize (prev : option econf) (ops : list op) : list op :=
+  match ops with
+  | [] => []
+  | AppendEpoch c :: r => AppendEpoch c :: normalize (Some c) r
+  | TryAppend c :: r =>
+      if append_ok prev c then AppendEpoch c :: normalize (Some c) r else normalize prev r
+  | o :: r => o :: normalize prev r
+  end.
+(* the guarded appends of an operation sequence that are rejected *)
+Fixpoint rejected (prev : option econf) (ops : list op) : list econf :=
+  match ops with
+  | [] => []
+  | AppendEpoch c :: r => rejected (Some c) r
+  | TryAppend c :: r => if append_ok prev c then rejected (Some c) r else c :: rejected prev r
+  | _ :: r => rejected prev r
   end.
